@@ -18,7 +18,7 @@ Tr == Traces[tid]
 ToSet(s) == {s[i] : i \in 1..Len(s)}
 
 SortedSeq(S) == LET it[X \in SUBSET S] == IF X = {} THEN <<>> ELSE <<Min(X)>> \o it[X \ {Min(X)}] IN it[S]
-HS == SortedSeq(Hosts)
+HS == SortedSeq(Objs)        \* Host objects (endpoints and, with "readd", their second incarnations)
 AS == SortedSeq(AllHosts)
 SS == SortedSeq(Sessions)
 
